@@ -578,7 +578,7 @@ func (c *Ctx) requireGate(instance string, f *Func, gates []Site, want Outcome, 
 	}
 	sites := append(sitePositions(gates), sitePositions(targets)...)
 	r := Result{Instance: instance, Verdict: Discharged, Sites: sites, Evals: len(targets),
-		Detail: fmt.Sprintf("%s: cut %d outcome edge(s) of %s; %d target site(s) unreachable", what, len(edges), strings.Join(callNames(gates), "/"), len(targets)),
+		Detail:    fmt.Sprintf("%s: cut %d outcome edge(s) of %s; %d target site(s) unreachable", what, len(edges), strings.Join(callNames(gates), "/"), len(targets)),
 		Witnesses: f.WitEdges(necessaryEdges(g, g.Entry(), edges, targets, Cut{}))}
 	c.add(r)
 	return true
@@ -722,7 +722,9 @@ func (f *Func) CallsW(specs ...Callee) []Site {
 }
 
 // isWrapperOf reports whether f itself is a thin wrapper of specs.
-func (p *Program) isWrapperOf(f *Func, specs ...Callee) bool { return p.wrapperCall(f, specs, 0) != nil }
+func (p *Program) isWrapperOf(f *Func, specs ...Callee) bool {
+	return p.wrapperCall(f, specs, 0) != nil
+}
 
 // reroot rewrites an expression of helper g in terms of the caller: a
 // parameter (or the receiver) is replaced by the argument at call, and a field
@@ -774,4 +776,93 @@ func (f *Func) CallsWDeep(specs ...Callee) []Site {
 		out = append(out, l.CallsWDeep(specs...)...)
 	}
 	return out
+}
+
+// ---------------------------------------------------------------------------
+// T12 helper: no swallowed error on the way to a protected effect.
+
+// errCalls lists every call in f's own body (closures excluded) whose error
+// result is bound to a variable that steers control flow.
+func (f *Func) errCalls() (tested []Site, unbound []Site) {
+	info := f.Info()
+	for _, s := range f.Find(func(n ast.Node) bool {
+		call, ok := n.(*ast.CallExpr)
+		if !ok {
+			return false
+		}
+		tv, ok := info.Types[call]
+		if !ok {
+			return false
+		}
+		switch t := tv.Type.(type) {
+		case *types.Tuple:
+			for i := 0; i < t.Len(); i++ {
+				if isErrorType(t.At(i).Type()) {
+					return true
+				}
+			}
+			return false
+		default:
+			return isErrorType(t)
+		}
+	}) {
+		if _, _, _, ok := OutcomeEdges(s); ok {
+			tested = append(tested, s)
+		} else {
+			unbound = append(unbound, s)
+		}
+	}
+	return
+}
+
+// calleeName is a stable name for the callee of call: the type-resolved
+// function's full name, or the source text when the callee is a value.
+func calleeName(info *types.Info, call *ast.CallExpr) string {
+	if fn, ok := calleeObj(info, call).(*types.Func); ok {
+		n := fn.FullName()
+		n = strings.ReplaceAll(n, pkgRoot+"/internal/", "")
+		n = strings.ReplaceAll(n, pkgRoot+"/", "")
+		return n
+	}
+	return exprString(call.Fun)
+}
+
+// errorsGate checks that for every error-returning call of f whose result is
+// tested, the protected effect cannot be reached from the call once the edges
+// on which that error is nil are cut (and without executing the call again): a
+// failing step never falls through to the effect. tolerated gives, for a call
+// whose failure is allowed to fall through by the property's own statement,
+// the reason. One result is recorded per call; the number of gated calls is
+// returned.
+func (c *Ctx) errorsGate(instance string, f *Func, what string, effect func(Point, ast.Node) bool, tolerated func(Site) string) int {
+	c.touch(f)
+	g := f.Graph()
+	tested, _ := f.errCalls()
+	n := 0
+	ord := map[string]int{}
+	for _, s := range tested {
+		name := calleeName(f.Info(), s.real())
+		ord[name]++
+		inst := fmt.Sprintf("%s: %s #%d", instance, name, ord[name])
+		nilE, _, _, _ := OutcomeEdges(s)
+		again := atSite(s)
+		pt, path := g.Reach(s.After(), Cut{Edges: nilE, Stop: func(p Point, nd ast.Node) bool { return again(p, nd) }}, effect)
+		if pt == nil {
+			n++
+			c.add(Result{Instance: inst, Verdict: Discharged, Sites: []string{s.Pos()}, Evals: 1,
+				Detail:    fmt.Sprintf("%s: with the nil-error edges of %s cut, the protected effect is unreachable from the call", what, name),
+				Witnesses: f.WitEdges(nilE)})
+			continue
+		}
+		if why := tolerated(s); why != "" {
+			c.add(Result{Instance: inst, Verdict: Discharged, Sites: []string{s.Pos()}, Detail: "tolerated fall-through: " + why})
+			continue
+		}
+		c.Bad(inst, s.Pos(), fmt.Sprintf("%s: in %s, after %s fails control can still reach %s (path %s): the error is swallowed",
+			what, f.Name, name, nodeStr(pt.B.Nodes[pt.I]), g.describePath(path)))
+	}
+	if len(tested) == 0 {
+		c.Unk(instance, fmt.Sprintf("%s: no tested error-returning call found in %s", what, f.Name))
+	}
+	return n
 }
